@@ -14,6 +14,43 @@
 static char *g_shm;
 static void note_history(const std::string &h) { if (g_shm) { strncpy(g_shm, h.c_str(), 4000); g_shm[4000] = 0; } }
 
+// ------------------------------------------------------------------ the allocator under the containers
+// Tracks block sizes; realloc behaviour is an explored environment answer: mode 0 always
+// moves the block, mode 1 shrinks in place (as glibc does) and moves on growth.  The tail of
+// a block shrunk in place is poisoned, so ASan still sees any write beyond the new size.
+#if defined(__SANITIZE_ADDRESS__)
+#include <sanitizer/asan_interface.h>
+#define POISON(p, n) ASAN_POISON_MEMORY_REGION(p, n)
+#define UNPOISON(p, n) ASAN_UNPOISON_MEMORY_REGION(p, n)
+#else
+#define POISON(p, n) ((void) 0)
+#define UNPOISON(p, n) ((void) 0)
+#endif
+#include <map>
+struct BlkInfo { size_t cur, real; };
+static std::map<void *, BlkInfo> g_blk;
+static int g_realloc_mode = 0;
+extern "C" {
+void *ctm_malloc(size_t n) { void *p = malloc(n ? n : 1); memset(p, 0xEE, n ? n : 1); g_blk[p] = BlkInfo{n, n}; return p; }
+void *ctm_calloc(size_t n, size_t m) { void *p = ctm_malloc(n * m); memset(p, 0, n * m); return p; }
+// hashtab.cpp releases the `new'-ed shell of a temporary table through the allocator's free (see
+// DESIGN.md section 8): a block this allocator never handed out goes to free() as the default
+// allocator would do; it is counted, not judged.
+static long g_foreign_frees;
+void ctm_free(void *p) { if (!p) return; auto it = g_blk.find(p); if (it == g_blk.end()) { g_foreign_frees++; free(p); return; } UNPOISON(p, it->second.real); g_blk.erase(it); free(p); }
+void *ctm_realloc(void *p, size_t n) {
+  if (!p) return ctm_malloc(n);
+  auto it = g_blk.find(p);
+  if (it == g_blk.end()) { fprintf(stderr, "container reallocated a block it does not own\n"); abort(); }
+  if (g_realloc_mode == 1 && n <= it->second.cur) { POISON((char *) p + n, it->second.real - n); it->second.cur = n; return p; }
+  void *q = ctm_malloc(n);
+  memcpy(q, p, n < it->second.cur ? n : it->second.cur);
+  ctm_free(p);
+  return q;
+}
+}
+static size_t block_size(const void *p) { auto it = g_blk.find((void *) p); return it == g_blk.end() ? 0 : it->second.cur; }
+
 struct ContOut { Report rep; };
 
 // ------------------------------------------------------------------ hash table
@@ -151,9 +188,10 @@ static std::string vlo_run(const std::string &hist, int initlen, std::string *vi
     const unsigned char *p = (const unsigned char *) ct_vlo_begin(v);
     if (err.empty()) for (size_t k = 0; k < m.size(); k++) if (m[k] >= 0 && p[k] != m[k]) { err = "byte " + std::to_string(k) + " is " + std::to_string(p[k]) + ", expected " + std::to_string(m[k]); break; }
     if (err.empty() && ct_vlo_capacity(v) < (long) m.size()) err = "recorded capacity below length";
+    if (err.empty() && (long) block_size(ct_vlo_begin(v)) < ct_vlo_capacity(v)) err = "the object believes it owns " + std::to_string(ct_vlo_capacity(v)) + " bytes but its block has " + std::to_string(block_size(ct_vlo_begin(v)));
     if (!err.empty()) break;
   }
-  *canon = std::to_string(m.size()) + ":" + std::to_string(ct_vlo_capacity(v));
+  *canon = std::to_string(m.size()) + ":" + std::to_string(ct_vlo_capacity(v)) + ":" + std::to_string(block_size(ct_vlo_begin(v)));
   ct_vlo_delete(v); ct_alloc_del(a);
   *viol = err;
   return *canon;
@@ -194,6 +232,7 @@ done:
 int eng_cont_main(int argc, char **argv) {
   Args a(argc, argv, 2);
   std::string what = a.get("what", "ht");
+  g_realloc_mode = (int) a.geti("realloc", 0);
   int hashfn = (int) a.geti("hashfn", 0), nkeys = (int) a.geti("keys", 4), sizecap = (int) a.geti("sizecap", 23), depth = (int) a.geti("depth", 8);
   long maxstates = a.geti("maxstates", 3000000);
   std::string out = a.get("out", "/dev/stdout");
